@@ -16,10 +16,12 @@ var (
 	NopCloser = io.NopCloser
 )
 
-func WriteFile(name string, data []byte, perm os.FileMode) error { return vos.WriteFile(name, data, perm) }
-func ReadFile(name string) ([]byte, error)                       { return vos.ReadFile(name) }
-func TempFile(dir, pattern string) (*vos.File, error)            { return vos.CreateTemp(dir, pattern) }
-func TempDir(dir, pattern string) (string, error)                { return vos.MkdirTemp(dir, pattern) }
+func WriteFile(name string, data []byte, perm os.FileMode) error {
+	return vos.WriteFile(name, data, perm)
+}
+func ReadFile(name string) ([]byte, error)            { return vos.ReadFile(name) }
+func TempFile(dir, pattern string) (*vos.File, error) { return vos.CreateTemp(dir, pattern) }
+func TempDir(dir, pattern string) (string, error)     { return vos.MkdirTemp(dir, pattern) }
 
 func ReadDir(dirname string) ([]os.FileInfo, error) {
 	vfs.Note("readdir", dirname)
